@@ -8,12 +8,19 @@
   specification of the defaults only ever adds a default for an absent node.  The equality of the
   unique check (after the repair of `getUniqueKey`): the key written for a tuple of values is injective, so the
   groups the check reports are exactly the classes of entries that agree on every leaf of the set, and on
-  unique sets whose paths end at leaves with a value this is the specification's `agreeing`.  The equality of
-  the decoration with the specification of "defaults in use" (IsActiveDefault vs the structural recursion)
-  and idempotence are compared by the correspondence stream only.
+  unique sets whose paths end at leaves with a value this is the specification's `agreeing`.
+  `C18_defaults_in_use`: on every schema the compiler can build (the children of a choice are cases with
+  different names, the names of every flattened child map differ — `wfTop`, checked by the driver on every
+  schema the stream feeds) the decorated view of the model — `yangDataChildren` with `IsActiveDefault` /
+  `isActiveDefaultCase` looking names up in child maps, `createDefault` filling default containers — is the
+  specification's: one recursion over the schema where choices and cases stand, adding the default of an absent
+  leaf whose choices on the way have a node of its case configured or nothing configured and the leaf's case
+  as default.  `C18_idempotent`: decorating twice equals decorating once (a second pass emits nothing because
+  the configured names now include what the first emitted, and leaves what was added alone).
 -/
 import YV.Proofs.YData
 import YV.Proofs.YUnique
+import YV.Proofs.YDeco
 namespace YV.Props.C18
 open YV YV.Y YV.SC YV.D YV.DS
 
@@ -56,6 +63,26 @@ theorem C18_default_only_if_absent (cfg : List Tok) (kids : List (SN τ)) (x : D
 theorem C18_unique_key_injective (vs ws : List Bytes) (h : encTuple vs = encTuple ws) : vs = ws :=
   encTuple_inj vs ws h
 
+/-- **C18 (defaults in use).** The decorated view is exactly the specification's, for every well-formed schema and
+    every data tree: the defaults of absent leaves under existing parents and non-presence containers, following
+    the active or default case of choices, and nothing else. -/
+theorem C18_defaults_in_use (top : List (SN τ)) (hwf : wfTop top = true) (root : DN) :
+    decorate top root = decorateS top root := by
+  rw [wfTop, Bool.and_eq_true, decide_eq_true_eq] at hwf
+  exact decorate_eq_spec top (wfLb_sound top hwf.1) hwf.2 root
+
+/-- what is added at one parent: `yangDataChildren`'s defaults = the defaults in use -/
+theorem C18_added_defaults (kids : List (SN τ)) (hwf : wfTop kids = true) (seen : List Tok) :
+    addedDefaults kids seen = defaultsS seen kids := by
+  rw [wfTop, Bool.and_eq_true, decide_eq_true_eq] at hwf
+  exact addedDefaults_eq_spec kids (wfLb_sound kids hwf.1) hwf.2 seen
+
+/-- **C18 (idempotence).** Decorating twice equals decorating once. -/
+theorem C18_idempotent (top : List (SN τ)) (hwf : wfTop top = true) (root : DN) :
+    decorate top (decorate top root) = decorate top root := by
+  rw [wfTop, Bool.and_eq_true, decide_eq_true_eq] at hwf
+  exact decorate_idem top (wfLb_sound top hwf.1) hwf.2 root
+
 /-- **C18 (unique).** the groups `checkUnique` reports are the classes (of two or more entries, in order of
     first occurrence) of entries whose resolved values agree leaf by leaf; entries lacking a leaf of the set
     are not examined -/
@@ -84,5 +111,22 @@ example : checkMand demoInner [[4]] [[99]] = [.mand [[99]] [3]] := by
   simp [checkMand, demoInner, missingOf, choiceHasMand, caseHasMand, hasOneOf, caseKids, dataKids, SN.name]
 example : checkMand demoInner [[3]] [[99]] = [] := by
   simp [checkMand, demoInner, missingOf, choiceHasMand, caseHasMand, hasOneOf, caseKids, dataKids, SN.name]
+
+/-! non-vacuity of `wfTop`: container c { leaf a (default 7); choice ch (default case p) { case p { leaf x (default 8);
+    choice in { case q { leaf y (default 9) } } } case r { leaf z (default 5) } } }: with nothing configured the default
+    case gives x (the nested choice has no default case); with z configured only a is added -/
+def demoDef : List (SN Unit) :=
+  [.container [99] false
+    [.leaf [1] () (some [55]) false,
+     .choice [2] false (some [3])
+       [.case [3] [.leaf [4] () (some [56]) false, .choice [5] false none [.case [6] [.leaf [7] () (some [57]) false]]],
+        .case [8] [.leaf [9] () (some [53]) false]]]]
+
+example : wfTop demoDef = true := by decide +kernel
+def demoC : List (SN Unit) := match demoDef with | [.container _ _ k] => k | _ => []
+example : (addedDefaults demoC []).map DN.name = [[1], [4]] := by decide +kernel
+example : (addedDefaults demoC [[9]]).map DN.name = [[1]] := by decide +kernel
+example : (addedDefaults demoC [[7]]).map DN.name = [[1], [4]] := by decide +kernel
+example : (addedDefaults demoDef []).flatMap (fun d => d.kids.map DN.name) = [[1], [4]] := by decide +kernel
 
 end YV.Props.C18
